@@ -283,6 +283,41 @@ def c17(tier):
         rc, so, se = sh([exe, 'disassemble', f], wd)
         names[len(recs)] = bigs[i]['name'] + ' [fml disassemble]'
         recs.append({'bytes': o['bytes'], 'text': so.decode('utf-8', 'replace') if rc == 0 else '<<disassemble failed>>'})
+    # constant pools of every size 4..519 (every value of the file's first byte): the CLI's listing must be the in-process listing (FMLObservations)
+    from concurrent.futures import ThreadPoolExecutor
+    sw = pool.sweep_programs()
+    souts = compile_pool(exe, sw, wd, ['listing'], 'c17sw')
+
+    def sweep_one(i):
+        o = souts[i]
+        if 'bytes' not in o or 'listing' not in o:
+            return []
+        f = os.path.join(wd, 'sw%d.bc' % i)
+        open(f, 'wb').write(bytes(o['bytes']))
+        rc, so, se = sh([exe, 'disassemble', f], wd)
+        return [{'key': sw[i]['name'] + ' :: listing', 'val': {'ok': True, 'd': hashlib.sha1(o['listing'].encode('utf-8')).hexdigest()}, 'cfg': 'in-process Display of the loaded program'},
+                {'key': sw[i]['name'] + ' :: listing', 'val': {'ok': rc == 0, 'd': hashlib.sha1(so).hexdigest()}, 'cfg': '`fml disassemble FILE`'}]
+    sobs = []
+    with ThreadPoolExecutor(max_workers=12) as ex:
+        for r in ex.map(sweep_one, range(len(sw))):
+            sobs += r
+    if sobs:
+        spath = os.path.join(wd, 'sweepobs.ndjson')
+        write_ndjson(spath, sobs)
+        ro = tlc_or_die('FMLObservations', env={'OBS': spath}, workers=1, timeout=600)
+        chk.add_tlc(ro)
+        if not ro.lines.get('DONE'):
+            raise ToolError('FMLObservations did not reach the end of the history')
+        for inc in ro.lines.get('INCONSISTENT', []):
+            a, b = sobs[inc['first'] - 1], sobs[inc['second'] - 1]
+            chk.violation('%s differs between [%s] and [%s]' % (inc['key'], a['cfg'], b['cfg']), {'program': inc['key'], 'first': a, 'second': b, 'signature': {'kind': 'cli-listing'}})
+        chk.traces += len(sobs)
+        chk.notes['pool_size_sweep'] = len(sw)
+    # two of them are judged in full below as well
+    for i in (119, 375):
+        if 'listing' in souts[i]:
+            names[len(recs)] = sw[i]['name']
+            recs.append({'bytes': souts[i]['bytes'], 'text': souts[i]['listing']})
     # TLC-generated structural programs
     from checks_bytecode import spec_generated_programs
     gen = spec_generated_programs(chk, wd, tier)
@@ -357,11 +392,26 @@ EDGE_SNIPPETS = [
 EDGE_CONTEXTS = ['%s', 'let v = %s', 'print("~\\n", %s)', '%s; 1', 'begin %s end', 'f(%s)', '(%s)', 'if true then %s else 0']
 
 
-def edge_texts(rng, n):
+def edge_texts(rng, n_cases):
+    n = n_cases
     cases = [('edge-text:%d:%d' % (i, j), c % s) for i, s in enumerate(EDGE_SNIPPETS) for j, c in enumerate(EDGE_CONTEXTS)]
     rng.shuffle(cases)
     alone = [('edge-text:%d:alone' % i, s) for i, s in enumerate(EDGE_SNIPPETS)]
-    return alone + cases[:n]
+    # long runs of one operator and of one precedence level (left-associative however long), and long postfix / call chains
+    chains = []
+    ops = ['+', '-', '*', '/', '%', '<', '<=', '>', '>=', '==', '!=', '&', '|']
+    for n in (2, 3, 9, 31, 32, 33, 40, 64, 100):
+        for op in (ops if n in (32, 33) else rng.sample(ops, 3)):
+            chains.append(('chain:%s x%d' % (op, n), (' %s ' % op).join('v%d' % k for k in range(n))))
+        chains.append(('chain:mixed-additive x%d' % n, ''.join(('v%d' % k) + (' + ' if k % 3 else ' - ') for k in range(n)) + '1'))
+        chains.append(('chain:mixed-multiplicative x%d' % n, ''.join(('v%d' % k) + (' * ' if k % 2 else ' / ') for k in range(n)) + '1'))
+        chains.append(('chain:fields x%d' % n, 'o' + ''.join('.f%d' % k for k in range(n))))
+        chains.append(('chain:calls x%d' % n, 'o' + ''.join('.m(%d)' % k for k in range(n))))
+        chains.append(('chain:indices x%d' % n, 'a' + ''.join('[%d]' % k for k in range(n))))
+        chains.append(('chain:else-if x%d' % n, ' else '.join('if c%d then %d' % (k, k) for k in range(n)) + ' else 0'))
+        chains.append(('chain:statements x%d' % n, '; '.join('s%d' % k for k in range(n))))
+        chains.append(('chain:arguments x%d' % n, 'f(' + ', '.join('%d' % k for k in range(n)) + ')'))
+    return alone + chains + cases[:n]
 
 
 def mutate_token_list(toks, rng):
@@ -896,7 +946,7 @@ def order_sensitive_programs(rng, n):
 def c11(tier):
     chk = Check('C11', tier)
     chk.rule = ('every program (corpus, seeded random programs, programs with many names in every hashed table) is compiled and executed repeatedly: twice in one process, in three '
-                'fresh processes (fresh hash seeds) of the debug build and two of the release build, and through the real `fml compile`/`fml run` command line; TLC-generated bytecode with duplicate label texts (MC_DupLabels) is executed in several fresh processes; the history of observations '
+                'fresh processes (fresh hash seeds) of the debug build and two of the release build, and through the real `fml compile`/`fml run` command line (there also callables whose frames have exactly 65535 / 65536 slots); TLC-generated bytecode with duplicate label texts (MC_DupLabels) is executed in several fresh processes; the history of observations '
                 '(program -> compiled bytes, bytes -> status + output) is validated by TLC against FMLObservations: a result is a function of its key and may not depend on run number, '
                 'process or build profile. distinct_nontrivial = distinct (program, observation source) pairs.')
     wd = scratch('c11')
@@ -943,6 +993,17 @@ def c11(tier):
                 add(i, 'bytes', {'d': hashlib.sha1(open(bc, 'rb').read()).hexdigest(), 'stage': 'ok'}, '%s `fml parse | fml compile`' % profile)
             rc3, so, se = sh([exe, 'run', src], wd)
             add(i, 'outcome', {'ok': rc3 == 0, 'out': hashlib.sha1(so).hexdigest()}, '%s `fml run`' % profile)
+    # frames of exactly 65535 / 65536 slots (the 16-bit limits), far too long for TLC: the real command line of both builds, and the output the programs must print
+    fl = pool.frame_limit_programs()
+    for k, p in enumerate(fl):
+        src = os.path.join(wd, 'fl%d.fml' % k)
+        open(src, 'w', encoding='utf-8').write(p['text'])
+        obs.append({'key': p['name'] + ' :: outcome', 'val': {'ok': True, 'out': hashlib.sha1(p['expect']).hexdigest()}, 'cfg': 'prescribed output'})
+        for profile in ('debug', 'release'):
+            rc, so, se = sh([build(profile), 'run', src], wd)
+            obs.append({'key': p['name'] + ' :: outcome', 'val': {'ok': rc == 0, 'out': hashlib.sha1(so).hexdigest()}, 'cfg': '%s `fml run`' % profile})
+            chk.count((p['name'], profile))
+    chk.notes['frame_limit_programs'] = len(fl)
     # bytecode with duplicate label texts (TLC-generated, MC_DupLabels): the same bytes must always behave the same, in every process
     rd = tlc_or_die('MC_DupLabels', workers=2, timeout=600)
     chk.add_tlc(rd)
@@ -981,9 +1042,9 @@ def c11(tier):
     for inc in ro.lines.get('INCONSISTENT', []):
         a, b = obs[inc['first'] - 1], obs[inc['second'] - 1]
         name = inc['key'].split(' :: ')[0]
-        p = [x for x in progs if x['name'] == name][0]
+        p = ([x for x in progs + dprogs + fl if x['name'] == name] or [{}])[0]
         chk.violation('%s differs between [%s] and [%s]' % (inc['key'], a['cfg'], b['cfg']),
-                      {'program': name, 'source': p['text'][:3000], 'first': a, 'second': b, 'signature': {'kind': 'nondeterminism', 'what': inc['key'].split(' :: ')[1]}})
+                      {'program': name, 'source': (p.get('text') or '')[-3000:], 'first': a, 'second': b, 'signature': {'kind': 'nondeterminism', 'what': inc['key'].split(' :: ')[1]}})
     chk.traces += len(obs)
     chk.notes.update({'programs': len(progs), 'observations': len(obs), 'keys': ro.lines['DONE'][0]['keys']})
     chk.sample(obs[0])
